@@ -23,3 +23,6 @@ mut('C19-a', 'mps.py', "        mps.qD[ 0] = mps0.qD[ 0].copy()\n        mps.qD[
 mut('C16-b', 'opgraph.py', "        other = copy.deepcopy(other)\n", "", ['C16', 'C19'], note='OpGraph.add renames ids in the other graph')
 mut('C12-b', 'bond_ops.py', "    s = (s / w)**2\n", "    s /= w\n    s = s**2\n", ['C12', 'C19'], note='retained_bond_indices normalises the caller\'s array in place')
 mut('C19-b', 'evolution.py', "            psi.A[i] = Q.reshape((s[0], s[1], Q.shape[1]))\n            # update the left blocks", "            psi.A[i] = Q.reshape((s[0], s[1], Q.shape[1]))\n            H.A[i] *= 1.0\n            # update the left blocks", ['C19', 'C08'], expect='violation', note='in-place (value-preserving) write to the Hamiltonian: frame violation only visible statically')
+
+mut('C11-b', 'bond_ops.py', "        D += Qsub.shape[1]\n", "        D += Qsub.shape[0]\n", ['C11'], note='intermediate dimension advanced by the row count of the block (differs for tall blocks)')
+mut('C11-c', 'bond_ops.py', "        iqn = np.where(q1 == qn)[0]; j0 = iqn[0]; j1 = iqn[-1] + 1\n\n        # perform QR decomposition of current block", "        iqn = np.where(q1 == qn)[0]; j0 = iqn[0]; j1 = iqn[-1]\n\n        # perform QR decomposition of current block", ['C11'], note='column block misses its last column')
